@@ -77,9 +77,30 @@ def sim_log(spec):
     try:
         for k in chunks:
             del shots[:]
-            sim.run(k)
+            interrupted = False
+            if isinstance(k, list):
+                # ["interrupt", k, j]: run(k), KeyboardInterrupt raised inside
+                # the decoder at the j-th trial of this call
+                _, k, j = k
+                real_decode = dec.decode
+                count = [0]
+
+                def bomb(s, **kw):
+                    count[0] += 1
+                    if count[0] == j:
+                        raise KeyboardInterrupt('injected')
+                    return real_decode(s, **kw)
+                dec.decode = bomb
+                try:
+                    sim.run(k)
+                except KeyboardInterrupt:
+                    interrupted = True
+                finally:
+                    del dec.decode
+            else:
+                sim.run(k)
             r = sim._results
-            events.append({'ev': 'run', 'requested': int(k),
+            events.append({'ev': 'run', 'requested': int(k), 'interrupted': interrupted,
                            'trials': [shot_record(code, s) for s in shots],
                            'lens': [len(r['effective_error']), len(r['success']),
                                     len(r['codespace']), int(r['n_runs'])]})
@@ -253,6 +274,9 @@ def run(tier):
         for (noise, ndef) in NOISE:
             for p in ([0.08] if tier == 'quick' else [0.03, 0.1, 0.3]):
                 chunks = [int(x) for x in rng.choice([0, 1, 2, 5], size=6 if tier == 'quick' else 12)]
+                # one call of the history is cut short by an interrupt
+                pos = int(rng.integers(1, len(chunks)))
+                chunks.insert(pos, ['interrupt', 5, int(rng.integers(2, 5))])
                 specs.append([dn, cn, list(size), dkw, noise, ndef, p,
                               int(rng.integers(1 << 30)), chunks])
     recs = common.pmap(sim_job, specs, procs=15)
@@ -263,7 +287,8 @@ def run(tier):
     with concurrent.futures.ThreadPoolExecutor(max_workers=12) as ex:
         futs = []
         for sp in rep_specs:
-            total = sum(sp[8])
+            total = sum(c for c in sp[8] if not isinstance(c, list))
+            sp = sp[:8] + [[c for c in sp[8] if not isinstance(c, list)]]
             alt = sp[:8] + [[total]]                      # one big chunk
             futs.append((sp, ex.submit(fresh_process_log, sp, '0'),
                          ex.submit(fresh_process_log, sp, '12345'),
